@@ -590,7 +590,84 @@ var ribSpecs = []fnSpec{
 	},
 }
 
+var ribDelSpec = fnSpec{
+	file: "rib/rib.go", goName: "DeleteEntry", recvType: "*RIB", callAs: "r.DeleteEntry", leanName: "deleteEntry", joins: true,
+	params: []param{
+		{goName: "ni", goType: "string", lean: "ni", kd: kStr},
+		{goName: "op", goType: "*spb.AFTOperation", lean: "op", kd: kPtr("AFTOperationC")},
+	},
+	goRets: "[]*OpResult, []*OpResult, error", rets: []string{"list:RibOpResult", "list:RibOpResult", "err"},
+	oracleParams: []param{
+		{goName: "§niKnown", lean: "niKnown", kd: kind{k: "fun", t: []kind{kBool, kStr}}},
+		{goName: "§niValid", lean: "niValid", kd: kind{k: "fun", t: []kind{kBool, kStr}}},
+		{goName: "§removed", lean: "removed", kd: kBool},
+		{goName: "§origTop", lean: "origTop", kd: kPtr("OrigTop")},
+		{goName: "§origNHG", lean: "origNHG", kd: kPtr("OrigNHG")},
+		{goName: "§delErr", lean: "delErr", kd: kind{k: "status"}},
+		{goName: "§refName", lean: "refName", kd: kind{k: "fun", t: []kind{kStr, kStr, kStr}}},
+		{goName: "§refErr", lean: "refErr", kd: kind{k: "fun", t: []kind{kind{k: "status"}, kStr, kStr}}},
+		{goName: "§hookErr", lean: "hookErr", kd: kind{k: "status"}},
+	},
+	// a RIBHolder is represented by the name of its network instance
+	oracles: map[string]oracle{
+		"r.NetworkInstanceRIB":    {results: []string{"$0", "§niKnown@0"}},
+		"niR.IsValid":             {results: []string{"§niValid@recv"}},
+		"niR.DeleteIPv4":          {results: []string{"§removed", "§origTop", "§delErr"}, effect: "delIPv4", args: []int{-1, 0}},
+		"niR.DeleteIPv6":          {results: []string{"§removed", "§origTop", "§delErr"}, effect: "delIPv6", args: []int{-1, 0}},
+		"niR.DeleteMPLS":          {results: []string{"§removed", "§origTop", "§delErr"}, effect: "delMPLS", args: []int{-1, 0}},
+		"niR.DeleteNextHopGroup":  {results: []string{"§removed", "§origNHG", "§delErr"}, effect: "delNHG", args: []int{-1, 0}},
+		"niR.DeleteNextHop":       {results: []string{"§removed", "§origNHG", "§delErr"}, effect: "delNH", args: []int{-1, 0}},
+		"r.refdRIB":               {results: []string{"§refName@0,1", "§refErr@0,1"}},
+		"*.decNHGRefCount":        {results: []string{}, effect: "decNHGRef", args: []int{-1, 0}},
+		"*.decNHRefCount":         {results: []string{}, effect: "decNHRef", args: []int{-1, 0}},
+		"r.callResolvedEntryHook": {results: []string{"§hookErr"}, effect: "resolvedHook"},
+	},
+	effects:   true,
+	typeMap:   map[string]string{"OpResult": "RibOpResult"},
+	extConsts: map[string]string{"constants.Delete": "2", "constants.IPv4": "2", "constants.MPLS": "5", "constants.IPv6": "6"},
+}
+
+var ribRefSpecs = []fnSpec{
+	{
+		file: "rib/rib.go", goName: "handleReferences", callAs: "handleReferences", leanName: "handleReferences", joins: true,
+		params: []param{
+			{goName: "r", goType: "*RIB", lean: "r", kd: kStr, skip: true},
+			// a RIBHolder is represented by the name of its network instance
+			{goName: "niRIB", goType: "*RIBHolder", lean: "niRIB", kd: kStr},
+			{goName: "original", goType: "S", lean: "original", kd: kPtr("OrigTop")},
+			{goName: "new", goType: "P", lean: "new", kd: kPtr("NewTop")},
+		},
+		goRets: "", rets: []string{},
+		oracleParams: []param{
+			{goName: "§refName", lean: "refName", kd: kind{k: "fun", t: []kind{kStr, kStr, kStr}}},
+			{goName: "§refErr", lean: "refErr", kd: kind{k: "fun", t: []kind{kind{k: "status"}, kStr, kStr}}},
+		},
+		oracles: map[string]oracle{
+			"r.refdRIB":        {results: []string{"§refName@0,1", "§refErr@0,1"}},
+			"*.decNHGRefCount": {results: []string{}, effect: "decNHGRef", args: []int{-1, 0}},
+			"*.incNHGRefCount": {results: []string{}, effect: "incNHGRef", args: []int{-1, 0}},
+		},
+		effects: true,
+	},
+	{
+		file: "rib/rib.go", goName: "handleNHGReferences", recvType: "*RIB", callAs: "r.handleNHGReferences", leanName: "handleNHGReferences",
+		params: []param{
+			{goName: "niRIB", goType: "*RIBHolder", lean: "niRIB", kd: kStr},
+			{goName: "original", goType: "*aft.Afts_NextHopGroup", lean: "original", kd: kPtr("OrigNHG")},
+			{goName: "new", goType: "*aftpb.Afts_NextHopGroup", lean: "new", kd: kPtr("NewNHG"), nonnil: true},
+		},
+		goRets: "", rets: []string{},
+		oracles: map[string]oracle{
+			"*.decNHRefCount": {results: []string{}, effect: "decNHRef", args: []int{-1, 0}},
+			"*.incNHRefCount": {results: []string{}, effect: "incNHRef", args: []int{-1, 0}},
+		},
+		effects: true,
+	},
+}
+
 func init() {
+	specs = append(specs, ribRefSpecs...)
+	specs = append(specs, ribDelSpec)
 	specs = append(specs, clientSpecs...)
 	specs = append(specs, clientSpecs2...)
 	specs = append(specs, ribSpecs...)
